@@ -376,7 +376,9 @@ def run_property(prop, tier, seed, only=None):
           'violations': len(seen)}
     if crashed:
         ev['coverage']['checker_errors'] = [c.get('crash', '')[-1500:] for c in crashed]
-    with open(os.path.join(OUTROOT, 'evidence', '%s.json' % prop), 'w') as f:
+    # a partial run (--only: developer aid) must not replace the evidence of the full check
+    evpath = os.path.join(OUTROOT, 'evidence', '%s.json' % prop) if only is None else os.path.join(OUTROOT, 'out', '%s.partial.json' % prop)
+    with open(evpath, 'w') as f:
         json.dump(ev, f, indent=1, default=str)
     for l in lines:
         print(l)
